@@ -2,14 +2,28 @@ CFG = dict(
     level="exploration",
     rule="one evaluation = one subscription (snapshot + live stream) folded and compared with the RIB at the end of a concurrent history; non-trivial = a subscription that received Adj-RIB-In events both before and after EndOfSnapshot (it overlapped writes), distinct by hash of the recorded scheduling-point log of its history (+ one hash per history = distinct interleavings)",
     monitors=["EndOfSnapshot delivered", "folded pre-policy map == iter_reach over all shards", "folded post-policy map == iter_reach_post",
-              "per key the last delivered event is the RIB's current state (unique MED tag per write)", "PeerDown clears the peer"],
+              "per key the last delivered event is the RIB's current state (unique MED tag per write)", "PeerDown clears the peer",
+              "peer tracking (bmp::verif::c19b::c18_peer_tracking): track_peer_up/down against the statement for any call order; "
+              "send_peer_up/down over a loopback Framed with arbitrary PeerUp/PeerDown event orders (PeerDown for peers never up, twice, "
+              "after re-up): wire == exactly the PeerDowns that close an open PeerUp; the daemon's serve loop end to end (event::main, real "
+              "sessions going up / down, stations subscribing at random points, PeerUp reconstructed from Global): every PeerDown read from a "
+              "station socket closes an open PeerUp of that peer; a peer whose routes arrive at the end has an open PeerUp"],
     assumptions=["schedules are sampled (native threads + delay injection at the hook points), not enumerated",
-                 "GR stale retention is out of scope of this property's quantifier (drops are plain peer drops)"],
+                 "GR stale retention is out of scope of this property's quantifier (drops are plain peer drops)",
+                 "peer tracking: a PeerDown event for a peer that never was established cannot be produced by real sessions (session_loop "
+                 "emits it only after on_established), so that case is driven directly through send_peer_down; a repeated PeerUp and "
+                 "RouteMonitoring for a peer without PeerUp are counted (unjudged:*), the statement does not name them"],
     parallel=5,
     floor=dict(evaluations=100, nontrivial=50,
-               counters={"histories": 60, "sched-point-hits": 3000, "subscriptions-overlapping-writes": 10, "events-folded": 2000}),
-    quick=[e2("conc", "event::verif::c18::run", 5, 30)],
-    thorough=[e2("conc", "event::verif::c18::run", 12, 150),
+               counters={"histories": 60, "sched-point-hits": 3000, "subscriptions-overlapping-writes": 10, "events-folded": 2000, "histories-folded-with-daemon-apply_snapshot": 25,
+                         "c18:direct-cases": 300, "c18:direct-peer-down-forwarded": 1300,
+                         "c18:direct-peer-down-events-for-peers-without-open-peer-up": 2000, "c18:track-suppressed": 250,
+                         "c18:e2e-histories": 8, "c18:peer-down-closes-peer-up": 45, "c18:peer-down-after-reconstructed-peer-up": 18,
+                         "c18:peer-up-live": 35, "c18:peer-up-reconstructed-from-global": 28, "c18:up-peer-has-open-peer-up": 40,
+                         "c18:station-streams-judged": 25}),
+    quick=[e2("conc", "event::verif::c18::run", 3, 30), e2("concb", "bmp::verif::c18b::run", 3, 30), e2("peertrack", "bmp::verif::c19b::c18_peer_tracking", 1, 30)],
+    thorough=[e2("conc", "event::verif::c18::run", 8, 150), dict(e2("concb", "bmp::verif::c18b::run", 8, 150), seed_offset=100),
               e2("tsan", "event::verif::c18::run", 4, 120, flavor="tsan"),
-              e2("miri", "event::verif::c18::run", 8, 200, flavor="miri", histories=2)],
+              e2("miri", "event::verif::c18::run", 8, 200, flavor="miri", histories=2),
+              dict(e2("peertrack", "bmp::verif::c19b::c18_peer_tracking", 2, 120), seed_offset=300)],
 )
